@@ -320,6 +320,7 @@ type Contract struct {
 	Lets       []LetSpec
 	Trusted    string
 	Partial    string // verified only for part of the stated range; callers that rely on it say so
+	RetSplit   bool   // postconditions are checked at every return statement separately (no merged exit state)
 	Inline     bool
 	NoVerify   bool
 	File       string
@@ -372,7 +373,7 @@ type ContractFile struct {
 var clauseKeywords = map[string]bool{
 	"spec": true, "axiom": true, "devirt": true, "opaque": true, "func": true, "property": true, "returns": true,
 	"config": true, "requires": true, "ensures": true, "modifies": true, "loop": true, "assert": true,
-	"trusted": true, "inline": true, "let": true, "lemma": true, "step": true, "allocates": true, "assume": true, "guarded": true, "split": true, "partial": true,
+	"trusted": true, "inline": true, "let": true, "lemma": true, "step": true, "allocates": true, "assume": true, "guarded": true, "split": true, "partial": true, "retsplit": true,
 }
 
 func parseContractFile(path, pkgPath string) (*ContractFile, error) {
@@ -672,6 +673,8 @@ func parseContractFile(path, pkgPath string) (*ContractFile, error) {
 				}
 			case "partial":
 				cur.Partial = rc.text
+			case "retsplit":
+				cur.RetSplit = true
 			case "inline":
 				cur.Inline = true
 			case "allocates":
